@@ -8,12 +8,13 @@ git checkout -q -- . ; rm -f tests/demo_*.rs
 FEAT=""
 grep -q "serde\|base64" $OUT/notes.md 2>/dev/null && FEAT="--features serde,base64"
 [ -n "$3" ] && FEAT="$3"
+TC="$4"
 git apply $OUT/patch.diff || { echo "PATCH DOES NOT APPLY"; exit 1; }
 SUITE=$(cargo test --offline -j 8 2>&1 | grep "^test result" | awk '{p+=$4; f+=$6} END {print p" passed "f" failed"}')
 cp $OUT/demo.rs tests/demo_$N.rs
-WITH=$(cargo test --offline -j 8 $FEAT --test demo_$N 2>&1 | grep "^test result" | tail -1)
+WITH=$(cargo $TC test --offline -j 8 $FEAT --test demo_$N 2>&1 | grep "^test result" | tail -1)
 git checkout -q -- .
-WITHOUT=$(cargo test --offline -j 8 $FEAT --test demo_$N 2>&1 | grep "^test result" | tail -1)
+WITHOUT=$(cargo $TC test --offline -j 8 $FEAT --test demo_$N 2>&1 | grep "^test result" | tail -1)
 rm -f tests/demo_$N.rs
 echo "suite(with change): $SUITE"; echo "demo with change: $WITH"; echo "demo without change: $WITHOUT"
 if echo "$SUITE" | grep -q " 0 failed" && echo "$WITH" | grep -q "FAILED" && echo "$WITHOUT" | grep -q "test result: ok"; then
